@@ -32,7 +32,7 @@ def run(ctx):
         keep, seen = [], set()
         ctx.rng.shuffle(cases)
         for c in cases:
-            k = (c["kind"], c["point"], c["sa"]) if c["kind"] == "container" else (c["kind"], c["after"])
+            k = (c["kind"], c["point"], c["sa"]) if c["kind"] == "container" else (c["kind"], c["point"], c["after"])
             if k not in seen:
                 seen.add(k)
                 keep.append(c)
